@@ -239,6 +239,12 @@ def parts(tier):
                     for b in ugrid:
                         if a < b:
                             yield (e, ugrid[0], ugrid[-1], a, b)
+        for lo, hi, g in D.ulp_spans()[1:]:      # spans whose end / start has its ulp neighbour inside
+            for s in D.interval_sets(g, 2):
+                for a in g:
+                    for b in g:
+                        if a < b:
+                            yield (D.labelled(s, "abc"), lo, hi, a, b)
 
     ps.append(InputPart("erase-intervals-ulp", gen_ulp, lambda c: _check_iv(c, False),
                         rule="interval sets and regions on the ulp-neighbour grid %s: boundaries and region edges one ulp apart" % (ugrid,),
@@ -252,6 +258,12 @@ def parts(tier):
                     for b in ugrid:
                         if a < b:
                             yield (p, ugrid[0], ugrid[-1], a, b)
+        for lo, hi, g in D.ulp_spans()[1:]:
+            for s in D.point_sets(g, 3):
+                for a in g:
+                    for b in g:
+                        if a < b:
+                            yield (D.labelled_points(s, "xyz"), lo, hi, a, b)
 
     ps.append(InputPart("erase-points-ulp", gen_pt_ulp, lambda c: _check_pt(c, False),
                         rule="point subsets (distinct and equal labels) and regions on the ulp-neighbour grid", bounds={}))
